@@ -436,6 +436,8 @@ func coerceLike(u Unk, like Value) (Value, error) {
 		j.B = l.B
 		if l.B {
 			j = j.Normalize()
+		} else {
+			j.Raw = string(u) // doc 8.14: json stores an exact copy of the input text
 		}
 		return j, nil
 	case *Array:
@@ -800,6 +802,10 @@ func castValue(v Value, typ string) (Value, error) {
 		switch x := v.(type) {
 		case *JSON:
 			c := x.Clone()
+			if bt == "json" && x.B {
+				// jsonb -> json: the json value is the jsonb text output (doc 8.14: json stores text)
+				c.Raw = x.String()
+			}
 			c.B = bt == "jsonb"
 			if c.B {
 				c = c.Normalize()
@@ -814,6 +820,8 @@ func castValue(v Value, typ string) (Value, error) {
 			j.B = bt == "jsonb"
 			if j.B {
 				j = j.Normalize()
+			} else {
+				j.Raw = s // doc 8.14: json stores an exact copy of the input text
 			}
 			return j, nil
 		}
